@@ -362,7 +362,7 @@ def run_batch(engine_name, prop, verif_seed, n_runs, tier, wall_cap_s, workers=N
     from concurrent.futures import ProcessPoolExecutor, wait, FIRST_COMPLETED
     import multiprocessing
     workers = workers or min(16, os.cpu_count() or 1)
-    chunk = chunk or max(1, min(25, n_runs // (workers * 4) or 1))
+    chunk = chunk or max(1, min(10, n_runs // (workers * 4) or 1))
     t0 = time.time()
     agg = {
         "runs": 0, "steps": 0, "counters": collections.Counter(), "distinct": set(),
